@@ -6191,6 +6191,24 @@ let inject_option args name value =
                      other) :: []))))) :: r))
          | _ -> app args ((Elem (false, (Obj (kv :: [])))) :: []))))
 
+(** val has_option : node list -> string -> bool **)
+
+let has_option args name =
+  match args with
+  | [] -> false
+  | _ :: l ->
+    (match l with
+     | [] -> false
+     | n0 :: _ ->
+       (match n0 with
+        | Elem (spread, e) ->
+          if spread
+          then false
+          else (match e with
+                | Obj props -> has_ident_key name props
+                | _ -> false)
+        | _ -> false))
+
 (** val is_define_component_call : node -> st -> bool **)
 
 let is_define_component_call n s =
@@ -6235,35 +6253,83 @@ let hook_call e n s =
                (match args with
                 | [] -> (n, s)
                 | a0 :: _ ->
-                  let (props, s0) = extract_props_type e a0 s in
-                  let (emits, s1) = extract_emits_type e a0 s0 in
-                  let args0 =
-                    match props with
-                    | Some p ->
-                      inject_option args (String ((Ascii (false, false,
-                        false, false, true, true, true, false)), (String
-                        ((Ascii (false, true, false, false, true, true, true,
-                        false)), (String ((Ascii (true, true, true, true,
-                        false, true, true, false)), (String ((Ascii (false,
-                        false, false, false, true, true, true, false)),
-                        (String ((Ascii (true, true, false, false, true,
-                        true, true, false)), EmptyString)))))))))) p
-                    | None -> args
-                  in
-                  let args1 =
-                    match emits with
-                    | Some e0 ->
-                      inject_option args0 (String ((Ascii (true, false, true,
-                        false, false, true, true, false)), (String ((Ascii
-                        (true, false, true, true, false, true, true, false)),
-                        (String ((Ascii (true, false, false, true, false,
-                        true, true, false)), (String ((Ascii (false, false,
-                        true, false, true, true, true, false)), (String
-                        ((Ascii (true, true, false, false, true, true, true,
-                        false)), EmptyString)))))))))) e0
-                    | None -> args0
-                  in
-                  ((Call (sy, c, f, args1, ta)), s1))
+                  if has_option args (String ((Ascii (false, false, false,
+                       false, true, true, true, false)), (String ((Ascii
+                       (false, true, false, false, true, true, true, false)),
+                       (String ((Ascii (true, true, true, true, false, true,
+                       true, false)), (String ((Ascii (false, false, false,
+                       false, true, true, true, false)), (String ((Ascii
+                       (true, true, false, false, true, true, true, false)),
+                       EmptyString))))))))))
+                  then if has_option args (String ((Ascii (true, false, true,
+                            false, false, true, true, false)), (String
+                            ((Ascii (true, false, true, true, false, true,
+                            true, false)), (String ((Ascii (true, false,
+                            false, true, false, true, true, false)), (String
+                            ((Ascii (false, false, true, false, true, true,
+                            true, false)), (String ((Ascii (true, true,
+                            false, false, true, true, true, false)),
+                            EmptyString))))))))))
+                       then ((Call (sy, c, f, args, ta)), s)
+                       else let (emits, s0) = extract_emits_type e a0 s in
+                            let args0 =
+                              match emits with
+                              | Some e0 ->
+                                inject_option args (String ((Ascii (true,
+                                  false, true, false, false, true, true,
+                                  false)), (String ((Ascii (true, false,
+                                  true, true, false, true, true, false)),
+                                  (String ((Ascii (true, false, false, true,
+                                  false, true, true, false)), (String ((Ascii
+                                  (false, false, true, false, true, true,
+                                  true, false)), (String ((Ascii (true, true,
+                                  false, false, true, true, true, false)),
+                                  EmptyString)))))))))) e0
+                              | None -> args
+                            in
+                            ((Call (sy, c, f, args0, ta)), s0)
+                  else let (props, s0) = extract_props_type e a0 s in
+                       let args0 =
+                         match props with
+                         | Some p ->
+                           inject_option args (String ((Ascii (false, false,
+                             false, false, true, true, true, false)), (String
+                             ((Ascii (false, true, false, false, true, true,
+                             true, false)), (String ((Ascii (true, true,
+                             true, true, false, true, true, false)), (String
+                             ((Ascii (false, false, false, false, true, true,
+                             true, false)), (String ((Ascii (true, true,
+                             false, false, true, true, true, false)),
+                             EmptyString)))))))))) p
+                         | None -> args
+                       in
+                       if has_option args0 (String ((Ascii (true, false,
+                            true, false, false, true, true, false)), (String
+                            ((Ascii (true, false, true, true, false, true,
+                            true, false)), (String ((Ascii (true, false,
+                            false, true, false, true, true, false)), (String
+                            ((Ascii (false, false, true, false, true, true,
+                            true, false)), (String ((Ascii (true, true,
+                            false, false, true, true, true, false)),
+                            EmptyString))))))))))
+                       then ((Call (sy, c, f, args0, ta)), s0)
+                       else let (emits, s1) = extract_emits_type e a0 s0 in
+                            let args1 =
+                              match emits with
+                              | Some e0 ->
+                                inject_option args0 (String ((Ascii (true,
+                                  false, true, false, false, true, true,
+                                  false)), (String ((Ascii (true, false,
+                                  true, true, false, true, true, false)),
+                                  (String ((Ascii (true, false, false, true,
+                                  false, true, true, false)), (String ((Ascii
+                                  (false, false, true, false, true, true,
+                                  true, false)), (String ((Ascii (true, true,
+                                  false, false, true, true, true, false)),
+                                  EmptyString)))))))))) e0
+                              | None -> args0
+                            in
+                            ((Call (sy, c, f, args1, ta)), s1))
              | _ -> (n, s))
 
 (** val hook_declarator : env -> node -> st -> node * st **)
